@@ -140,6 +140,12 @@ def _path_same(a, b):
     for x, y in zip(a, b):
         if x is y:
             continue
+        if isinstance(x, SymInt) or isinstance(y, SymInt):
+            if isinstance(x, (SymInt, int)) and isinstance(y, (SymInt, int)) and not isinstance(x, bool) and not isinstance(y, bool):
+                r = int_eq(x, y)
+                if z3.is_true(r):
+                    continue
+            return False
         if isinstance(x, str) and isinstance(y, str):
             if isinstance(x, SymStr) or isinstance(y, SymStr):
                 sx, sy = SymStr.lift(x), SymStr.lift(y)
@@ -690,6 +696,51 @@ class ShapeMapTrackerStep(Ob):
         return None if _norm(result["instances"]) == _norm(want) else "instances after the item: %r, expected %r" % (result["instances"], want)
 
 
+class ClassAggregationSymbolicCount(Ob):
+    """class aggregation of one instance whose number of values c is a *symbolic* integer (1 .. 10^6): the class gains exactly the cells
+    [c] and ['+'] whatever c is - the solver finds any magic constant the code might treat specially."""
+    functions = ClassAggregation.functions
+
+    def __init__(self, inverse, pre):
+        self.inverse, self.pre = inverse, pre
+        self.name = "class_aggregation_symbolic_count/%s/pre=%s" % ("2d" if inverse else "1d", pre)
+
+    def build(self, ex):
+        inst = node(ex, "i")
+        c = SymInt(ex.fresh_int("count", 1, 10 ** 6), 1, 10 ** 6)
+        one = SymInt(z3.IntVal(1), 1, 1)
+        feats = {P: {"IRI": c}}
+        i_entry = (["http://ex.org/C"], feats) + ((({Q: {"IRI": c}}),) if self.inverse else ())
+        d = {} if self.pre == "empty" else {P: {"IRI": {one: sym_counter(ex, "k1", 1), "+": sym_counter(ex, "k2", 1)}}}
+        inv = {} if self.pre == "empty" else {Q: {"IRI": {one: sym_counter(ex, "k3", 1), "+": sym_counter(ex, "k4", 1)}}}
+        c_shapes = {"http://ex.org/C": (d, inv) if self.inverse else d}
+        return dict(i_dict={inst: i_entry}, c_shapes=c_shapes, inst=inst, c=c)
+
+    def call(self, a):
+        i_dict = copy_state(a["i_dict"])
+        prof = make_profiler(i_dict, self.inverse)
+        prof._classes_shape_dict.update(copy_state(a["c_shapes"]))
+        prof._build_class_profile()
+        return dict(c_shapes=prof._classes_shape_dict)
+
+    def _want(self, a):
+        want = copy_state(a["c_shapes"])
+        c = a["c"]
+        for pos, prop in ((0, P),) + (((1, Q),) if self.inverse else ()):
+            d = want["http://ex.org/C"][pos] if self.inverse else want["http://ex.org/C"]
+            cell = d.setdefault(prop, {}).setdefault("IRI", {})
+            for card in (c, "+"):
+                cell[card] = cell.get(card, 0) + 1
+        return want
+
+    def bad(self, a, result):
+        return neg(states_equal(result["c_shapes"], self._want(a)))
+
+    def check(self, a, result):
+        want = self._want(a)
+        return None if _norm(result["c_shapes"]) == _norm(want) else "class profile after aggregating an instance with %r values: %r, expected %r" % (a["c"], result["c_shapes"], want)
+
+
 class CardinalityMapping(Ob):
     """The pure cardinality mappings on a symbolic integer cardinality (unbounded): ShExC '{k}' (nothing for 1 on a constraint line) and
     SHACL minCount = maxCount = k."""
@@ -811,6 +862,9 @@ def obligations(prop, tier):
             for classes in (("http://ex.org/C",), ("http://ex.org/C", "http://ex.org/E")):
                 for pre in ("empty", "some", "full"):
                     out.append(ClassAggregation(direct, inv, inverse, classes, pre))
+        for inverse in (False, True):
+            for pre in ("empty", "some"):
+                out.append(ClassAggregationSymbolicCount(inverse, pre))
     if prop == "C11":
         out.append(CardinalityMapping(True))
         out.append(CardinalityMapping(False))
